@@ -140,7 +140,7 @@ func runC09_2(c *core.Ctx) {
 		return
 	}
 	for _, f := range a.funcs {
-		if f.Obj == a.grow || f.Obj.Name() == "New" {
+		if f.Obj == a.grow || nameOf(f.Obj) == "New" {
 			continue
 		}
 		// producer destinations: copy(dst, _) with dst based on rb.buf; X.Read(dst); rb.buf[i] = v
@@ -405,7 +405,7 @@ func runC09_4(c *core.Ctx) {
 		return
 	}
 	for _, f := range a.funcs {
-		if f.Obj == a.grow || f.Obj == a.reset || f.Obj.Name() == "New" {
+		if f.Obj == a.grow || f.Obj == a.reset || nameOf(f.Obj) == "New" {
 			continue
 		}
 		advances := false
@@ -478,9 +478,9 @@ func runC09_4(c *core.Ctx) {
 			construct := "return after advancing rb.r #" + itoa(k)
 			// table exceptions
 			switch {
-			case f.Obj.Name() == "Discard":
+			case nameOf(f.Obj) == "Discard":
 				c.Ok(f.Name, construct, b.Return.Pos(), "exception: Discard advances only under n < Buffered(), so the buffer cannot become empty")
-			case f.Obj.Name() == "WriteTo" && st&(1<<sTestedEq) == 0 && isFirstSegmentReturn(f, a, b):
+			case nameOf(f.Obj) == "WriteTo" && st&(1<<sTestedEq) == 0 && isFirstSegmentReturn(f, a, b):
 				c.Ok(f.Name, construct, b.Return.Pos(), "exception: first segment of the split WriteTo (error or short write): m <= c1 < Buffered()")
 			default:
 				c.Violate(f.Name, construct, b.Return.Pos(), "a read-type operation can return after advancing rb.r without the `rb.r == rb.w` → Reset() test: a drained buffer keeps r == w with isEmpty false and is treated as full ("+itoa(0)+" bytes become size bytes of garbage)")
@@ -685,7 +685,7 @@ func runC09_6(c *core.Ctx) {
 				return true
 			}
 			if hi, ok := isHead(as.Rhs[0]); ok && hi != nil {
-				if _, isCopyArg := remDef[hi]; isCopyArg && f.Obj.Name() == "Peek" {
+				if _, isCopyArg := remDef[hi]; isCopyArg && nameOf(f.Obj) == "Peek" {
 					k++
 					c.Check(firstLen[remDef[hi]] == a.r && (total == nil || remTotal[hi] == total), f.Name, "peek split #"+itoa(k), as.Pos(), "tail length = requested - (size - r)", "the wrapped part of a Peek has a length other than the request minus the size-r bytes of the head")
 				}
